@@ -42,6 +42,15 @@ def gen(r) -> Dict[str, Any]:
             t = round(t + r.choice(steps), 3)      # exact in microseconds: no float noise between sources
             evs.append(t)
         sources.append({"events": evs, "producer": r.random() < 0.3})
+    if r.random() < 0.04:
+        # one long feed: several hundred events through a single source (queues that release consumed items in chunks)
+        k = r.randrange(nsrc)
+        t = 0
+        evs = []
+        for _ in range(r.randint(300, 700)):
+            t += r.choice([0, 1, 1, 2])
+            evs.append(t)
+        sources[k]["events"] = evs
     if nsrc >= 2 and r.random() < 0.15:
         j = r.randrange(1, nsrc)
         sources[j]["alias_of"] = r.randrange(0, j)     # built from the same list object as an earlier source
